@@ -51,9 +51,12 @@ def applyAll (cfg : Cfg) (s : State) : List Label → Option State
 /-! ### plugin level: one queue (one model state) per remedy key -/
 
 structure KeyQ where
-  key : Nat
+  key : Nat           -- full queue key: name index + 100 * quota + 10000 * window seconds
+  cfg : Cfg           -- the strategy of this key (+ the case's queue size)
   s : State
   gids : List Nat     -- global request ids in arrival order (position = model request id)
+  armed : Nat := 0    -- instant at which the roll-over timer was last armed (ties among equal due instants
+                      -- fire in arming order, as registered on the harness clock)
 
 structure PSt where
   cfg : Cfg := ⟨0, 1, 0⟩
@@ -80,6 +83,13 @@ def parsePCfg (ws : List String) : Option (Cfg × Nat × Nat) := do
   let t0 ← kvNat ws "t0"
   if w = 0 then none else pure (⟨q, w * 1000000000, sz⟩, ttl * 1000000000, t0)
 
+/-- Full queue key of a `preq` op and its configuration (`q=`/`w=` default to the case's `pcfg`). -/
+def keyOfReq (base : Cfg) (ws : List String) (key : Nat) : Option (Nat × Cfg) :=
+  let q := (kvNat ws "q").getD base.quota
+  let w := (kvNat ws "w").getD (base.win / 1000000000)
+  if q ≥ 100 || w = 0 || w ≥ 100 || key ≥ 100 then none
+  else some (key + 100 * q + 10000 * w, ⟨q, w * 1000000000, base.size⟩)
+
 /-- `k` first requests at one instant on a fresh queue: (pass, wait, rej). -/
 def burstModel (cfg : Cfg) (t0 ttl k : Nat) : Nat × Nat × Nat :=
   match run cfg (init cfg t0) (List.replicate k (.enq 0 ttl)) with
@@ -93,15 +103,22 @@ def nextTimer (p : PSt) (target : Nat) : Option (Nat × Nat × Option Nat) :=
     match a with
     | none => some c
     | some b => if c.1 < b.1 then some c else some b
-  let rolls := p.keys.foldl (fun acc k =>
-    if k.s.rollDue ≤ target then better acc (k.s.rollDue, k.key, none) else acc) none
+  -- roll-over timers: earliest due first, among equal due instants the one armed first
+  let rolls : Option (Nat × Nat × Nat) := p.keys.foldl (fun acc k =>
+    if k.s.rollDue ≤ target then
+      match acc with
+      | none => some (k.s.rollDue, k.armed, k.key)
+      | some b => if k.s.rollDue < b.1 || (k.s.rollDue == b.1 && k.armed < b.2.1) then some (k.s.rollDue, k.armed, k.key)
+                  else some b
+    else acc) none
+  let rolls' : Option (Nat × Nat × Option Nat) := rolls.map fun r => (r.1, r.2.2, none)
   p.arrivals.foldl (fun acc g =>
     p.keys.foldl (fun acc k =>
       match k.gids.idxOf? g with
       | some r => match phaseOf k.s.reqs r with
         | .parked dl => if dl ≤ target then better acc (dl, k.key, some r) else acc
         | _ => acc
-      | none => acc) acc) rolls
+      | none => acc) acc) rolls'
 
 def tickAll (p : PSt) (t : Nat) : PSt :=
   { p with now := t, keys := p.keys.map fun k => { k with s := { k.s with now := t } } }
@@ -118,14 +135,14 @@ def ptickLoop (p : PSt) (target : Nat) : Nat → PSt × List String → PSt × L
       | some k =>
         match what with
         | none =>
-          match step p.cfg k.s .roll with
+          match step k.cfg k.s .roll with
           | some (s', .roll rel) =>
-            let s'' := (applyAll p.cfg s' ((rel.filter (fun x => (phaseOf k.s.reqs x).isParked)).map .finish)).getD s'
-            let p' := { p with keys := setKey p.keys { k with s := s'' } }
+            let s'' := (applyAll k.cfg s' ((rel.filter (fun x => (phaseOf k.s.reqs x).isParked)).map .finish)).getD s'
+            let p' := { p with keys := setKey p.keys { k with s := s'', armed := p.now } }
             ptickLoop p' target fuel (p', evs ++ [s!"r{key}@{p.now}:{fmtDone k rel "+"}"])
           | _ => (p, evs ++ ["model-error"])
         | some r =>
-          match applyAll p.cfg k.s [.expire r, .finish r] with
+          match applyAll k.cfg k.s [.expire r, .finish r] with
           | some s' =>
             let p' := { p with keys := setKey p.keys { k with s := s' } }
             ptickLoop p' target fuel (p', evs ++ [s!"x{gidOf k r}@{p.now}:early:429"])
@@ -144,19 +161,22 @@ def pStep (p : PSt) (line : String) : PSt × String :=
   | "preq" :: ws =>
     match kvNat ws "id", kvNat ws "key", kvNat ws "p" with
     | some id, some key, some prio =>
-      if p.mode == 1 || prio ≥ 8 || key ≥ 100 || p.arrivals.contains id then (p, "bad-op") else
-      let k : KeyQ := (p.keys.find? (·.key == key)).getD ⟨key, init p.cfg p.now, []⟩
-      match step p.cfg k.s (.enq prio p.ttl) with
+      if p.mode == 1 || prio ≥ 8 || p.arrivals.contains id then (p, "bad-op") else
+      match keyOfReq p.cfg ws key with
+      | none => (p, "bad-op")
+      | some (ck, kcfg) =>
+      let k : KeyQ := (p.keys.find? (·.key == ck)).getD ⟨ck, kcfg, init kcfg p.now, [], p.now⟩
+      match step kcfg k.s (.enq prio p.ttl) with
       | some (s', .enq _ _ res rel) =>
         let r := k.s.reqs.length
         let k' : KeyQ := { k with gids := k.gids ++ [id] }
-        let s1 := (applyAll p.cfg s' ((rel.filter (fun x => (phaseOf k.s.reqs x).isParked)).map .finish)).getD s'
+        let s1 := (applyAll kcfg s' ((rel.filter (fun x => (phaseOf k.s.reqs x).isParked)).map .finish)).getD s'
         let (s2, a) : State × String := match res with
           | .pass => (s1, "noop")
           | .full => (s1, "early:429")
           | .push =>
-            if p.ttl = 0 then ((applyAll p.cfg s1 [.park r, .expire r, .finish r]).getD s1, "early:429")
-            else ((applyAll p.cfg s1 [.park r]).getD s1, "waiting")
+            if p.ttl = 0 then ((applyAll kcfg s1 [.park r, .expire r, .finish r]).getD s1, "early:429")
+            else ((applyAll kcfg s1 [.park r]).getD s1, "waiting")
         let k'' := { k' with s := s2 }
         ({ p with mode := 2, keys := setKey p.keys k'', arrivals := p.arrivals ++ [id] },
          s!"{a} done={fmtDone k' rel ","} c={fmtCounts s2.reqs}")
@@ -167,7 +187,7 @@ def pStep (p : PSt) (line : String) : PSt × String :=
     | some d =>
       if p.mode == 1 then (p, "bad-op") else
       let target := p.now + d
-      let fuel := (d / p.cfg.win + 2) * (p.keys.length + 1) + p.arrivals.length + 2
+      let fuel := (d / 1000000000 + 2) * (p.keys.length + 1) + p.arrivals.length + 2
       let (p', evs) := ptickLoop p target fuel (p, [])
       let p'' := tickAll p' target
       ({ p'' with mode := 2 }, s!"now={target} ev={if evs.isEmpty then "-" else ";".intercalate evs}")
@@ -343,6 +363,7 @@ def fmtEv : Ev → String
 
 structure KJ where
   key : Nat
+  cfg : Cfg
   t0 : Nat
   o : Obs
   evs : List Ev := []      -- most recent first
@@ -397,10 +418,13 @@ def pjStep (p : PJ) (op out : String) : Except String PJ :=
   | "preq" :: ws =>
     match kvNat ws "id", kvNat ws "key", kvNat ws "p", ows.head?, (kv ows "done").bind (parseDone · ","), kv ows "c" with
     | some id, some key, some prio, some a, some done, some c =>
-      let k0 : KJ := (p.keys.find? (·.key == key)).getD ⟨key, p.now, Obs.init p.cfg p.now, [], []⟩
-      let k := k0.at p.cfg p.now
+      match keyOfReq p.cfg ws key with
+      | none => .error s!"unparsable:{pctEnc op}"
+      | some (ck, kcfg) =>
+      let k0 : KJ := (p.keys.find? (·.key == ck)).getD ⟨ck, kcfg, p.now, Obs.init kcfg p.now, [], []⟩
+      let k := k0.at kcfg p.now
       match done.mapM (fun g => k.gids.idxOf? g) with
-      | none => .error s!"released-request-of-another-key:{pctEnc out}"
+      | none => .error s!"released-request-of-another-queue-key:{pctEnc out}"
       | some rel =>
         let r := k.o.reqs.length
         let fin := finishEvs k rel
@@ -414,7 +438,7 @@ def pjStep (p : PJ) (op out : String) : Except String PJ :=
         match res with
         | none => .error s!"unparsable:{pctEnc out}"
         | some es =>
-          let k' := { (k.push p.cfg es) with gids := k.gids ++ [id] }
+          let k' := { (k.push kcfg es) with gids := k.gids ++ [id] }
           if c != fmtCounts k'.o.reqs then .error s!"counts-mismatch:{pctEnc out}:expected={fmtCounts k'.o.reqs}"
           else .ok { p with keys := setKJ p.keys k', arrivals := p.arrivals ++ [id] }
     | _, _, _, _, _, _ => .error s!"unparsable:{pctEnc out}"
@@ -435,16 +459,16 @@ def pjStep (p : PJ) (op out : String) : Except String PJ :=
               let some key := (hd.drop 1).toString.toNat? | .error s!"unparsable:{pctEnc it}"
               let some k0 := p.keys.find? (·.key == key) | .error s!"roll-over-of-unknown-key:{pctEnc it}"
               let some done := parseDone body "+" | .error s!"unparsable:{pctEnc it}"
-              let k := k0.at p.cfg t
-              let some rel := done.mapM (fun g => k.gids.idxOf? g) | .error s!"released-request-of-another-key:{pctEnc it}"
-              .ok { p with keys := setKJ p.keys (k.push p.cfg (.roll rel :: finishEvs k rel)) }
+              let k := k0.at k0.cfg t
+              let some rel := done.mapM (fun g => k.gids.idxOf? g) | .error s!"released-request-of-another-queue-key:{pctEnc it}"
+              .ok { p with keys := setKJ p.keys (k.push k.cfg (.roll rel :: finishEvs k rel)) }
             else if hd.startsWith "x" then
               let some g := (hd.drop 1).toString.toNat? | .error s!"unparsable:{pctEnc it}"
               let some k0 := p.keys.find? (fun k => k.gids.contains g) | .error s!"expiry-of-unknown-request:{pctEnc it}"
               let some r := k0.gids.idxOf? g | .error "impossible"
               if body != "early:429" then .error s!"expired-request-not-refused:{pctEnc it}" else
-              let k := k0.at p.cfg t
-              .ok { p with keys := setKJ p.keys (k.push p.cfg [.expire r, .finish r false]) }
+              let k := k0.at k0.cfg t
+              .ok { p with keys := setKJ p.keys (k.push k.cfg [.expire r, .finish r false]) }
             else .error s!"unparsable:{pctEnc it}"
           | [] => .error s!"unparsable:{pctEnc it}"
         | _ => .error s!"unparsable:{pctEnc it}"
@@ -455,11 +479,11 @@ def pjStep (p : PJ) (op out : String) : Except String PJ :=
   | _ => .error "unknown-op"
 
 def pjFinish (p : PJ) : String :=
-  match p.keys.find? (fun k => !(holds p.cfg k.t0 k.evs.reverse)) with
+  match p.keys.find? (fun k => !(holds k.cfg k.t0 k.evs.reverse)) with
   | none => "ok"
   | some k =>
     let es := k.evs.reverse
-    match firstFail p.cfg (Obs.init p.cfg k.t0) es 0 with
+    match firstFail k.cfg (Obs.init k.cfg k.t0) es 0 with
     | some (fid, i, what) =>
       let e := match es[i]? with | some e => fmtEv e | none => "?"
       s!"fail {fid} key-{k.key}:{what}-violated-at-event-{i}:{e}"
